@@ -124,8 +124,15 @@ func (f prefixFilter) Filter(refname string) bool {
 // whose names match the specified `prefix`, which must match the
 // whole reference name.
 func RegexpFilter(pattern string) (ReferenceFilter, error) {
-	pattern = "^" + pattern + "$"
-	re, err := regexp.Compile(pattern)
+	// Check the pattern on its own first, so that an unbalanced
+	// pattern cannot pair up with the group that is added below:
+	if _, err := regexp.Compile(pattern); err != nil {
+		return nil, err
+	}
+
+	// The group makes the anchors apply to the whole pattern, even if
+	// it contains a top-level alternation:
+	re, err := regexp.Compile("^(?:" + pattern + ")$")
 	if err != nil {
 		return nil, err
 	}
